@@ -50,8 +50,9 @@ fn any_frame_region() -> Region {
 // `Frame` has private fields and no constructor but `parse`; the function only calls the two accessors
 // `image_header()` and `header()`, which are replaced by accessors of harness-owned headers. The Frame
 // object itself is never read.
-static mut IMG_PTR: *const ImageHeader = core::ptr::null();
-static mut FH_PTR: *const FrameHeader = core::ptr::null();
+// unique non-null initial values: Kani 0.68 may give a `static mut` the storage of an equal-bytes constant
+static mut IMG_PTR: *const ImageHeader = 0x4a58_4c5f_494d_4700usize as *const ImageHeader;
+static mut FH_PTR: *const FrameHeader = 0x4a58_4c5f_4648_4400usize as *const FrameHeader;
 fn stub_image_header(_f: &Frame) -> &ImageHeader {
     unsafe { &*IMG_PTR }
 }
@@ -154,7 +155,7 @@ irtf!(image_region_to_frame_o8, 8);
 /// that Region::apply_orientation(R) is exactly the set of stored samples displayed inside R, non-empty and inside the
 /// stored image, is rg.apply_orientation_o1..8. Together: q in result <=> q in frame and q+(x0,y0) in S(R)
 /// <=> q in frame and the displayed position of image sample q+(x0,y0) is in R.
-static mut STORED: Region = Region { left: 0, top: 0, width: 0, height: 0 };
+static mut STORED: Region = Region { left: 0x5354_4f01, top: 0x5354_4f02, width: 0x5354_4f03, height: 0x5354_4f04 };
 fn stub_oriented(_h: &ImageHeader, _r: Region) -> Region {
     unsafe { STORED }
 }
